@@ -43,17 +43,9 @@ def table_guarded_full : Prop :=
 The list must stay SMALL; `known_unguarded_are_real` forces every entry to name a row that really
 is in an incompatible pair, so an entry has to be deleted as soon as the code is fixed. -/
 def exceptions : List (String × String) := [
-  -- rdb_iteratorPool.go: `get()` reads `enabled` without `l`; `disable()`/`enable()` write it under `l`
-  -- (every closest-key lookup vs. every catch-up reload / close)
-  ("IteratorPool.enabled", "IteratorPool.get"),
-  -- dnsserver/db.go: the fsnotify loop compares event names with `h.dbConfig.Path` without
-  -- `reloadMu`; a full reload writes `h.dbConfig.Path` under `reloadMu`
-  ("FBDNSDB.dbConfig.Path", "FBDNSDB.watchDBAndReload"),
-  -- dnsserver/db.go: `path.Dir(h.dbConfig.Path)` when the watcher goroutine starts, no `reloadMu`
-  ("FBDNSDB.dbConfig.Path", "FBDNSDB.WatchDBAndReload"),
-  -- dnsserver/db.go: `h.dnsdb.ValidateDbKey` reads the served-database pointer without `reloadMu`;
-  -- `Reload` swaps it under `reloadMu`
-  ("FBDNSDB.dnsdb", "FBDNSDB.ValidateDbKey")
+  -- (empty since the four unguarded accesses found by this table were fixed in /repo:
+  --  IteratorPool.enabled in get(), FBDNSDB.dbConfig.Path in the two fsnotify watchers,
+  --  FBDNSDB.dnsdb in ValidateDbKey — see known_findings.json, status fixed)
 ]
 
 def excepted (r : Row) : Bool := exceptions.contains (r.field, r.fn)
@@ -107,13 +99,16 @@ theorem known_unguarded_race :
   | [], _ => exact .inl rfl
   | [p], _ => exact .inr ⟨p, rfl⟩
 
-/-- The full-strength statement fails on the current tree (negation from the concrete table). -/
-theorem table_guarded_full_fails : ¬ table_guarded_full := by
-  intro h
-  obtain ⟨r₁, m₁, r₂, m₂, f₁, _, f₂, hc⟩ :=
-    known_unguarded_are_real ("IteratorPool.enabled", "IteratorPool.get") (by decide)
-  rw [h r₁ m₁ r₂ m₂ (f₁.trans f₂.symm)] at hc
-  cases hc
+/-- **Full-strength table theorem**: every two accesses to the same shared field are guarded by a
+common lock in compatible modes (or happen during initialisation) — no exception. -/
+theorem table_guarded : table_guarded_full := by
+  intro r₁ h₁ r₂ h₂ hf
+  exact table_guarded_except_known r₁ h₁ r₂ h₂ hf (by simp [excepted, exceptions]) (by simp [excepted, exceptions])
+
+/-- no two rows of the extracted table race, in any execution with any number of threads -/
+theorem table_no_race : ∀ r₁ ∈ rows, ∀ r₂ ∈ rows, ¬ Race (ofRow r₁) (ofRow r₂) := by
+  intro r₁ h₁ r₂ h₂
+  exact no_race_except_known r₁ h₁ r₂ h₂ (by simp [excepted, exceptions]) (by simp [excepted, exceptions])
 
 /-- The table is not vacuous: every configured shared field has rows, and some pair of rows is
 protected by a genuinely common lock (not merely by init / read-read). -/
